@@ -93,6 +93,12 @@ CALLS['transform.to_rfi(some,overrides)'] = (lambda s, a: FlowCal.transform.to_r
 CALLS['transform.to_mef'] = (lambda s, a: FlowCal.transform.to_mef(s, a['chs'], a['sc_list'], a['chs']), False, False)
 CALLS['transform.transform'] = (lambda s, a: FlowCal.transform.transform(s, a['chs'], lambda x: np.asarray(x) * 2.0), False, False)
 CALLS['gate.start_end'] = (lambda s, a: FlowCal.gate.start_end(s, 2, 3, full_output=True), False, False)
+# gates that happen to keep every event still return samples of their own
+CALLS['gate.start_end(0,0)'] = (lambda s, a: FlowCal.gate.start_end(s, 0, 0, full_output=True), False, False)
+CALLS['gate.start_end(negative counts)'] = (lambda s, a: FlowCal.gate.start_end(s, -1, -2), False, False)
+CALLS['gate.high_low(keeps all)'] = (lambda s, a: FlowCal.gate.high_low(s, a['chs'], 1e12, -1e12, full_output=True), False, False)
+CALLS['gate.ellipse(keeps all)'] = (lambda s, a: FlowCal.gate.ellipse(s, a['chs2'], a['center'], 1e9, 1e9, 0.0, full_output=True), False, False)
+CALLS['gate.density2d(fraction 1)'] = (lambda s, a: FlowCal.gate.density2d(s, a['chs2'], bins=8, gate_fraction=1.0, xscale='linear', yscale='linear', sigma=1.0, full_output=True), False, False)
 CALLS['gate.high_low(default)'] = (lambda s, a: FlowCal.gate.high_low(s, full_output=True), False, False)
 CALLS['gate.high_low(args)'] = (lambda s, a: FlowCal.gate.high_low(s, a['chs'], a['high'], a['low']), False, False)
 CALLS['gate.ellipse'] = (lambda s, a: FlowCal.gate.ellipse(s, a['chs2'], a['center'], 300., 200., 0.3, full_output=True), False, False)
